@@ -1190,22 +1190,40 @@ func validateProposedConfigEntryInServiceGraph(
 		sid := structs.NewServiceID(kindName.Name, &kindName.EnterpriseMeta)
 		checkChains[sid] = struct{}{}
 
-		iter, err := tx.Get(tableConfigEntries, indexLink, sid)
-		if err != nil {
-			return err
-		}
-		for raw := iter.Next(); raw != nil; raw = iter.Next() {
-			entry := raw.(structs.ConfigEntry)
-			switch entry.GetKind() {
-			case structs.ServiceRouter, structs.ServiceSplitter, structs.ServiceResolver:
-				svcID := structs.NewServiceID(entry.GetName(), entry.GetEnterpriseMeta())
-				checkChains[svcID] = struct{}{}
-			case structs.IngressGateway:
-				ingress, ok := entry.(*structs.IngressGatewayConfigEntry)
-				if !ok {
-					return fmt.Errorf("type %T is not an ingress gateway config entry", entry)
+		// Follow the "link" index transitively: a chain can reach this service
+		// through entries of other services (a splitter that only names another
+		// service records no protocol of its own), so the chains of the direct
+		// referrers compiling does not imply that the chains of THEIR referrers do.
+		seenIngress := make(map[configentry.KindName]struct{})
+		queue := []structs.ServiceID{sid}
+		for len(queue) > 0 {
+			cur := queue[0]
+			queue = queue[1:]
+
+			iter, err := tx.Get(tableConfigEntries, indexLink, cur)
+			if err != nil {
+				return err
+			}
+			for raw := iter.Next(); raw != nil; raw = iter.Next() {
+				entry := raw.(structs.ConfigEntry)
+				switch entry.GetKind() {
+				case structs.ServiceRouter, structs.ServiceSplitter, structs.ServiceResolver:
+					svcID := structs.NewServiceID(entry.GetName(), entry.GetEnterpriseMeta())
+					if _, ok := checkChains[svcID]; !ok {
+						checkChains[svcID] = struct{}{}
+						queue = append(queue, svcID)
+					}
+				case structs.IngressGateway:
+					ingress, ok := entry.(*structs.IngressGatewayConfigEntry)
+					if !ok {
+						return fmt.Errorf("type %T is not an ingress gateway config entry", entry)
+					}
+					kn := configentry.NewKindNameForEntry(ingress)
+					if _, ok := seenIngress[kn]; !ok {
+						seenIngress[kn] = struct{}{}
+						checkIngress = append(checkIngress, ingress)
+					}
 				}
-				checkIngress = append(checkIngress, ingress)
 			}
 		}
 	}
